@@ -162,7 +162,7 @@ func (w *World) Step(tr *vutil.Trace, o AbsOp, amount string, gas string) *execd
 		gas = "1000000"
 	}
 	var tx *types.Transaction
-	var tx2 *types.Transaction
+	var tx2, tx3 *types.Transaction
 	lock := 0
 	burn := []int{}
 	kind := o.Op
@@ -215,6 +215,21 @@ func (w *World) Step(tr *vutil.Trace, o AbsOp, amount string, gas string) *execd
 			}
 			tx.Hash = tx.GenHash()
 		}
+	case "StaleGas":
+		// three transactions in one block: fund a fresh account P with a little more than two flat
+		// fees; a contract creation that burns 30M gas; a contract call from P whose gas limit is
+		// below the intrinsic gas, so it fails before the EVM runs. The executor's per-block context
+		// still holds the gas used by the previous transaction when the failed one is charged: P
+		// can only pay what it has, the fee account must not receive more than P loses.
+		p := fmt.Sprintf("0x%040x", 0x9900000+w.n*1000+int(w.seq))
+		fund, _ := json.Marshal(map[string]types.TransferData{p: {Balance: "0.0102"}})
+		tx = execdrv.NewTx(types.TransactionTypeOperatorEvent, src, "", "", string(fund), w.seq, salt)
+		w.seq++
+		burnData, _ := json.Marshal(types.ContractData{GasLimit: "30000000", TransferValue: "0", AbiData: "0x5b600056"})
+		tx2 = execdrv.NewTx(types.TransactionTypeContract, src, "", string(burnData), "", w.seq, salt+"b")
+		w.seq++
+		poorData, _ := json.Marshal(types.ContractData{GasLimit: "100", TransferValue: "0", AbiData: "0x"})
+		tx3 = execdrv.NewTx(types.TransactionTypeContract, p, w.addr[o.B], string(poorData), "", w.seq, salt+"c")
 	case "Stake":
 		id := sha256.Sum256([]byte(salt))
 		typ, stake := 0, 400
@@ -267,6 +282,9 @@ func (w *World) Step(tr *vutil.Trace, o AbsOp, amount string, gas string) *execd
 		list = []*types.Transaction{tx}
 		if tx2 != nil {
 			list = append(list, tx2)
+		}
+		if tx3 != nil {
+			list = append(list, tx3)
 		}
 	}
 	res := execdrv.Execute(w.St, h, list)
